@@ -332,7 +332,11 @@ func (s *LevelDBStore) DeleteRange(min, max uint64) error {
 		if err := iterator.Error(); err != nil {
 			return err
 		}
-		batch.Delete(iterator.Key())
+		// The stable store shares the keyspace: its keys sort in between
+		// the log keys, so never treat them as part of a log range.
+		if !bytes.HasPrefix(iterator.Key(), []byte("stablestore-")) {
+			batch.Delete(iterator.Key())
+		}
 		available = iterator.Next()
 	}
 	return s.db.Write(&batch, nil)
